@@ -27,6 +27,7 @@ ASSUMPTIONS = ['titles are drawn from a pool chosen by reading the code (ordinar
                'results are stub TestResults (anchor + description); up to three of them (solver-chosen) carry a plot template, some of them the same plot; MplPlot.save is a stub that writes a small file; for trees of <= 1 section the figures are written sequentially or by a pool of 2 / 3 workers (solver-chosen; multiprocessing.pool.ThreadPool stands in for the process pool: same Pool.map code)',
                'sections with the same chain of titles share one page (their texts are concatenated): accepted as long as every result appears once',
                'optionally (solver-chosen) the same Rst object formats a second, unrelated report between formatting and writing the first',
+               'optionally (solver-chosen, trees of <= 2 sections) the formatted report is first written to another directory; the second copy is the one checked',
                'a toctree entry is resolved relative to the directory of the page that contains it (Sphinx semantics)']
 OUTSIDE = ['the content of figure files (matplotlib rendering)', "Sphinx's own interpretation of exotic titles", 'titles outside the pool']
 EXPLANATION = ('bounded symbolic execution (symrun + z3: solver-chosen tree shapes and titles) of the real report writer on a temporary '
@@ -125,6 +126,13 @@ def make_harness(k):
                     other = TestReport(title='OTHER-ROOT', text='other text', content=[
                         _mk_result('other'), TestReport(title='OTHER-SECTION', text='t', content=[_mk_result('other2')])])
                     rst.format_report(report=other, author='me', version='0')
+                if k <= 2 and ex.choice(2, 'written-to-another-directory-first') == 1:
+                    # the same formatted report is written twice; the directory checked below is the SECOND one
+                    first = tempfile.mkdtemp(prefix='verif_c20_first_')
+                    try:
+                        fmt.write(os.path.join(first, 'report'))
+                    finally:
+                        shutil.rmtree(first, ignore_errors=True)
                 fmt.write(out)
             except ValueError as e:
                 raised = e
